@@ -83,9 +83,15 @@ Clauses(e) ==
           StateClauses(e) \cup
           (IF e.iv = st.iv /\ e.sl = st.sl THEN {} ELSE {"ReloadSame"})
      [] e.ev = "eval" -> EvalClauses(e)
+     \* an object left behind by an earlier reload, observed again after a later call on the reloaded copy:
+     \* e.iv/sl/ic now, e.siv/ssl/sic when it was left behind, e.U / e.sU its value at one coverage
+     [] e.ev = "frozen" ->
+          (IF e.iv = e.siv /\ e.sl = e.ssl /\ e.ic = e.sic /\ e.U = e.sU THEN {} ELSE {"ReloadDetached"})
+          \cup (IF Len(e.iv) = Len(e.sl) /\ Len(e.ic) = Len(e.iv) /\ Fresh(e.iv, e.sl, e.ic) THEN {}
+                ELSE {"ReloadDetachedFresh"})
      [] OTHER -> {"UnknownEvent"}
 
-Step(e) == IF e.ev = "eval" THEN st ELSE [iv |-> e.iv, sl |-> e.sl]
+Step(e) == IF e.ev \in {"eval", "frozen"} THEN st ELSE [iv |-> e.iv, sl |-> e.sl]
 
 Init == l = 1 /\ st = [iv |-> <<>>, sl |-> <<>>] /\ TLCSet(1, {})
 Next == /\ l <= Len(TraceLog)
